@@ -205,6 +205,8 @@ fn check_votes(run: &Run, n: &Node) {
 
 pub fn run(run: &Run) {
     let thorough = run.thorough();
+    // the TIP-911 view of stake sets: totals of this and the next epoch, order of the list (shared with C07, which checks the root)
+    crate::props::c07::tip911_view(run);
     let jumps: Vec<u64> = vec![199_998, 399_998, 599_998, 799_998];
     let mut initial: BTreeMap<melstructs::TxHash, StakeDoc> = BTreeMap::new();
     initial.insert(melstructs::TxHash(tmelcrypt::HashVal([0x61; 32])), StakeDoc { pubkey: key(2).0, e_start: 0, e_post_end: 2, syms_staked: melstructs::CoinValue(5) });
